@@ -267,8 +267,9 @@ def run(ck, ix, tier):
         defs = defs_of(fi)
         rets = [r for r in ast.walk(fi.node) if isinstance(r, ast.Return)]
         for r in rets:
-            roots = defs.roots(r.value)
-            ok = any(x.endswith("dimensionality") for x in roots) and isinstance(r.value, ast.UnaryOp) and isinstance(r.value.op, ast.Not)
+            from .. import shape as _shd
+            rv = _shd.deep(ix, fi, r.value, fi.node)
+            ok = _shd.match("not bool(_X.dimensionality)", rv) is not None or _shd.match("not _X.dimensionality", rv) is not None
             ck.check(ok, "G-PROV", f"{qual}|not-bool-dimensionality", fi.loc(r),
                      "dimensionless == empty dimensionality", f"`{norm(r)}` is not `not bool(dimensionality)`")
 
@@ -426,18 +427,24 @@ def check_wrapper_order_rule(ck, ix):
     fi = ix.func("pint.registry_helpers", "check")
     for w in [f for f in fi.module.all_functions if f.name == "wrapper" and f.qualname.startswith(fi.qualname)]:
         from ..lib import roots_with_closure
+        # the packed argument list and the keyword mapping, by role: the two results of _apply_defaults(...)
+        packed = kwmap = None
+        for a in ast.walk(w.node):
+            if isinstance(a, ast.Assign) and isinstance(a.value, ast.Call) and call_name(a.value) == "_apply_defaults" and isinstance(a.targets[0], (ast.Tuple, ast.List)) and len(a.targets[0].elts) == 2:
+                packed, kwmap = (norm(e) for e in a.targets[0].elts)
         loops = [l for l in ast.walk(w.node) if isinstance(l, ast.For) and "sig.parameters" in " ".join(sorted(roots_with_closure(w, l.iter) | {norm(l.iter)}))]
         ok = False
         for l in loops:
-            apps = [c for c in ast.walk(l) if isinstance(c, ast.Call) and call_name(c) == "append" and c.args and "kw[" in norm(c.args[0])]
             names = [norm(e) for e in (l.target.elts if isinstance(l.target, ast.Tuple) else [l.target])]
-            if apps and any(norm(apps[0].args[0]) == f"kw[{nm}]" for nm in names):
-                ok = True
+            for c in ast.walk(l):
+                if isinstance(c, ast.Call) and isinstance(c.func, ast.Attribute) and c.func.attr == "append" and norm(c.func.value) == packed and c.args \
+                        and any(norm(c.args[0]) == f"{kwmap}[{nm}]" for nm in names):
+                    ok = True
         ck.check(ok, "G-PROV", "registry_helpers.check|keyword-arguments-in-signature-order", w.loc(),
                  "keyword/default values are appended in signature order (zip with the declared dimensions is positional)",
                  "keyword and default arguments are no longer collected by walking sig.parameters in order: dimensions are checked against the wrong arguments")
-        zips = [c for c in ast.walk(w.node) if isinstance(c, ast.Call) and call_name(c) == "zip"]
-        ck.check(any([norm(a) for a in z.args] == ["dimensions", "list_args"] for z in zips), "G-PROV", "registry_helpers.check|dimensions-zipped-with-arguments", w.loc(),
+        zips = [c for c in ast.walk(w.node) if isinstance(c, ast.Call) and call_name(c) == "zip" and len(c.args) == 2]
+        ck.check(any(norm(z.args[1]) == packed and any("get_dimensionality" in r for r in roots_with_closure(w, z.args[0])) for z in zips), "G-PROV", "registry_helpers.check|dimensions-zipped-with-arguments", w.loc(),
                  "declared dimensions zipped with the packed arguments", "declared dimensions are not zipped with the packed argument list")
 
 
